@@ -333,7 +333,11 @@ func sesRun(t *testing.T, lines []string) []string {
 				if body == nil {
 					body = []byte{}
 				}
-				w.request("POST", w.sesURL(sess(f[2])), hdr, body, f[4] == "1", false)
+				if strings.HasPrefix(f[4], "d") { // d<n>: Content-Length says n, the body yields what it yields
+					declareLen = atoi(f[4][1:])
+				}
+				w.request("POST", w.sesURL(sess(f[2])), hdr, body, f[4] != "0", false)
+				declareLen = -1
 			case "postslow": // ses postslow <s> <hex>: the upload stalls after the first byte until "ses unpark"
 				gate := make(chan struct{})
 				w.parkMu.Lock()
@@ -373,6 +377,8 @@ func sesRun(t *testing.T, lines []string) []string {
 						note = "" // a failed client write is the client's business
 					}
 				}
+			case "stall": // ses stall <c>: the client stops reading
+				w.conns[atoi(f[2])].stall()
 			case "drop":
 				w.conns[atoi(f[2])].drop()
 			case "send": // ses send <s> <t|b> <hex> <compress> <cb> <pre|->
@@ -404,6 +410,16 @@ func sesRun(t *testing.T, lines []string) []string {
 							}
 							w.reactCount["cb"]++
 							switch call {
+							case "sendcbpark": // send again, with a callback of its own, and be slow to return
+								w.reacts["cb"] = nil
+								w.cbSeq++
+								id2 := w.cbSeq
+								so.Send(types.NewStringBufferString("re:cb"), nil, func(transports.Transport) { w.e("%s:cb:%d", tag, id2) })
+								ch := make(chan struct{})
+								w.parkMu.Lock()
+								w.listenerParked = append(w.listenerParked, ch)
+								w.parkMu.Unlock()
+								<-ch
 							case "send":
 								so.Send(types.NewStringBufferString("re:cb"), nil, nil)
 							case "close0":
